@@ -177,7 +177,12 @@ func (w *c15World) render() (map[string]string, map[string][]string) {
 				// documented scope modifiers: public / protected / private before the field name
 				l = append(l, "---@field "+[]string{"", "", "public ", "protected ", "private "}[(len(f)+len(l))%5]+f+" number")
 			}
-			l = append(l, fmt.Sprintf("local %s_%d = {}", c.name, di), "")
+			if (len(l)+di)%3 == 0 {
+				// no statement and no blank line: the next annotation of this file continues the same comment block
+				// (several ---@class statements in one block)
+			} else {
+				l = append(l, fmt.Sprintf("local %s_%d = {}", c.name, di), "")
+			}
 			lines[d.file] = l
 		}
 	}
